@@ -81,6 +81,8 @@ class C03(runner.Prop):
         # all / any only tell leaf sets apart when the other leaves are all truthy / all falsy: biased strata
         numeric = st.one_of(numeric_of(st.integers(-5, 9)), numeric_of(st.integers(-5, 9)),
                             numeric_of(st.sampled_from([0, 0, 0, 0, 0, 0, 0, 3])), numeric_of(st.integers(1, 9)))
+        general_pred = st.fixed_dictionaries({'kind': st.just('agree'), 't': gen.tree_descs(ml),
+                                              'cfg': gen.configs().map(lambda c: c)})
         bad = st.fixed_dictionaries({
             'kind': st.just('error'),
             't': gen.tree_descs(ml, leaf=st.one_of(
@@ -92,7 +94,14 @@ class C03(runner.Prop):
             't': st.tuples(wrap_kinds, st.sampled_from([50, 500, 990]), gen.tree_descs(5, max_depth=3)).map(
                 lambda t: ['wrap', ','.join(t[0]), t[1], t[2]]),
             'cfg': gen.configs(predicates=['none', 'never', 'leaf_even'])})
-        return st.one_of(general, general, general, numeric, numeric, bad, bad, deep)
+        # explicit weights (one_of neither keeps repetitions as weights nor nested alternatives as one)
+        table = [general] * 9 + [numeric_of(st.integers(-5, 9))] * 2 + [numeric_of(st.sampled_from([0, 0, 0, 0, 0, 0, 0, 3])),
+                                                                         numeric_of(st.integers(1, 9))] + [bad] * 3 + [deep] * 3
+
+        @st.composite
+        def pick(draw):
+            return draw(table[draw(st.integers(0, len(table) - 1))])
+        return pick()
 
     # ------------------------------------------------------------------
     def check_case(self, case, ctx):
@@ -185,6 +194,30 @@ class C03(runner.Prop):
             ctx.fail('all_leaves', f'{subs!r}')
         if not optree.all_leaves(leaves, **kw) and cfg['pred'] in ('none', 'never'):
             ctx.fail('all_leaves/leaves', f'{leaves!r}')
+        # all_leaves judges every element on its own: ordered pairs / triples of sub-objects of the tree (same-typed
+        # ones next to each other in particular - a predicate may accept one and reject the next)
+        objs = [n.obj for n in m.structure(tree).walk()][:10]
+        for x in list(objs)[:6]:            # same-typed neighbours a value-dependent predicate tells apart
+            if type(x) is tuple:
+                objs += [x + (0,), x[:1], (5, 6)]
+            elif type(x) is list:
+                objs += [x + [0], x[:1], [7]]
+            elif type(x) is dict:
+                objs += [{**x, 'a': 0}, {k: v for k, v in x.items() if k != 'a'}]
+        checked = 0
+        for i, x in enumerate(objs):
+            for j, y in enumerate(objs):
+                if i == j or checked >= 60 or not (type(x) is type(y) or (i + j) % 5 == 0):
+                    continue
+                checked += 1
+                lx, ly = bool(optree.tree_is_leaf(x, **kw)), bool(optree.tree_is_leaf(y, **kw))
+                for seq in ([x, y], [x, x, y], (y, x, y)):
+                    want_seq = lx and ly
+                    if bool(optree.all_leaves(seq, **kw)) != want_seq:
+                        ctx.fail('all_leaves/sequence', f'{seq!r}: all_leaves={optree.all_leaves(seq, **kw)} but leaf-ness {lx}, {ly}')
+                        break
+                if lx != ly and type(x) is type(y):
+                    ctx.label('all_leaves:same_type_mixed_leafness')
 
     def reductions(self, case, tree, cfg, kw, ctx):
         leaves = optree.tree_leaves(tree, **kw)
